@@ -17,6 +17,11 @@ _KET_RULE = ("`ket`: two real channels with their REAL timers under the fake clo
              "interval), restart a side with a fresh channel; intervals keep-alive 300..10^6, backoff 50..250, rekey 700..10^5, reject "
              "1500..10^5 ms; observations: every emission with its time, the three slots, both timers pending, waiting callers. Where the "
              "two timers of a channel are due at the same instant the runtime orders them arbitrarily: the model follows (admissibility).")
+_KESW_RULE = ("`kesw` oracle: two whole p2pkeswarm nodes over an in-memory transport with the library's default intervals, under the fake "
+              "clock: loss 30-100%, short-lived Tells, restarts at the same transport address, clock steps up to 181 s; then a reliable "
+              "network: a Tell completes within the bound, both directions get through, 70 rounds of traffic across rekey and "
+              "reject-after; then Close (optionally with a handshake that cannot complete) and ten minutes of fake time during which the "
+              "closed node must not attempt a single send.")
 _KE_RULE = ("lock-step scenarios over real p2pke Sessions and Channels (timers detached, driven by the harness): 2-7 sessions "
             "(an honest pair, an unrelated pair, adversary sessions holding their own key) or 2-3 channels with acceptance "
             "predicates all/none/only:k; ops: deliver any message ever emitted to any party, retransmit, send, rekey, handshake "
@@ -55,7 +60,8 @@ PROPS = {
                             "the stack theorem composes per-layer soundness (C10 reassembly, C15 framing, C02 channel authenticity); it does not "
                             "re-prove them"]},
     "C13": {"streams": [_HUB_STREAM], "oracles": ["hub", "swarm"], "rule": _HUB_RULE, "assumptions": _HUB_ASSUME, "oracle_n": {"quick": 100, "thorough": 2000}},
-    "C12": {"streams": [_HUB_STREAM], "oracles": ["hub", "swarm"], "rule": _HUB_RULE, "assumptions": _HUB_ASSUME, "oracle_n": {"quick": 100, "thorough": 2000}},
+    "C12": {"streams": [_HUB_STREAM], "oracles": ["hub", "swarm", "kesw"], "rule": _HUB_RULE + " " + _KESW_RULE, "assumptions": _HUB_ASSUME, "oracle_n": {"quick": 100, "thorough": 2000},
+            "oracle_n_by": {"kesw": {"quick": 8, "thorough": 500}}},
     "C11": {"streams": [_HUB_STREAM, _FRAG_STREAM], "oracles": ["hub", "swarm"], "rule": _HUB_RULE, "assumptions": _HUB_ASSUME, "oracle_n": {"quick": 100, "thorough": 2000}},
     "C14": {"streams": [_HUB_STREAM, {"name": "frag", "quick": 15000, "thorough": 300000, "thorough_seeds": 2, "stateful": True, "seq_start": ("frag-new", "mb-new")}],
             "oracles": ["hub", "frag"], "oracle_n_by": {"frag": {"quick": 3000, "thorough": 100000}},
@@ -74,8 +80,8 @@ PROPS = {
                                          "fingerprints are treated as injective (identity = key)"]},
     "C05": {"streams": [_KE_STREAM], "oracles": ["ke"], "rule": _KE_RULE, "assumptions": _KE_ASSUME,
             "oracle_n": {"quick": 3000, "thorough": 60000}},
-    "C07": {"streams": [_KE_STREAM, _KET_STREAM], "oracles": ["ke", "ket"], "rule": _KE_RULE + " " + _KET_RULE, "oracle_n": {"quick": 3000, "thorough": 60000},
-            "oracle_n_by": {"ket": {"quick": 250, "thorough": 12000}},
+    "C07": {"streams": [_KE_STREAM, _KET_STREAM], "oracles": ["ke", "ket", "kesw"], "rule": _KE_RULE + " " + _KET_RULE + " " + _KESW_RULE, "oracle_n": {"quick": 3000, "thorough": 60000},
+            "oracle_n_by": {"ket": {"quick": 250, "thorough": 12000}, "kesw": {"quick": 8, "thorough": 500}},
             "assumptions": _KE_ASSUME + ["convergence is proved for fresh channels and for a peer restart after establishment / after the "
                                          "first InitHello (three reliable round trips); arbitrary adversarial prefixes are covered by the "
                                          "invariants (slots, keys, keep-alive) and by the correspondence, not by a general convergence theorem",
